@@ -9,7 +9,7 @@ from props import C15 as c15
 
 PROP = "C50"
 META = {
-    "level": "trace_validation",
+    "level": "model_checking",
     "text": "spec/CharsIO.tla states that the result of writing a term / reading a text is a function of (operation, input, "
             "options) alone, whatever the access path: write_term_to_chars/3 vs write_term/3 on a stream; "
             "read_term_from_chars/3, read_from_chars/2 vs read_term/3, read/2 on a stream; errors (Formal) included. TLC "
